@@ -397,6 +397,18 @@ def run_suite(pid, suite, tier, seed, workdir, log, replay=None):
                     if len(r["propfails"]) < 50:
                         r["propfails"].append({"kind": "remarshal-unstable", "desc": "re-marshalling an unmarshalled value gave a string that unmarshals differently: " + g.strip(), "input": inp})
                 if g != l:
+                    if suite == "classify" and word in ("check", "params"):
+                        # the Lean side is the pipeline model, whose accepted language is PROVED equal to the independent
+                        # recogniser of the documented layouts (Accept.unmarshal_eq_grammar_*): a different CLASS
+                        # (verifies / mismatch / malformed; Params values) is a concrete misclassified string
+                        def cls(x):
+                            t = x.strip().split(" ", 1)[0]
+                            return t if t in ("nil", "mismatch") else (x.strip() if t == "ok" else "error")
+                        if cls(g) != cls(l):
+                            inp = {"suite": suite, "op": op.strip()[:2000], "implementation": g.strip()[:300], "specification": l.strip()[:300]}
+                            if len(r["propfails"]) < 50:
+                                r["propfails"].append({"kind": "misclassified", "desc": "the implementation classifies this string as %r, the documented layout as %r" % (cls(g)[:60], cls(l)[:60]), "input": inp})
+                            r["stats"]["propfail:misclassified"] = r["stats"].get("propfail:misclassified", 0) + 1
                     if (suite, word) in DIRECT_BY_SUITE and word not in DIRECT_OPS:
                         inp = {"suite": suite, "op": op.strip()[:3000], "implementation": g.strip()[:600], "reference": l.strip()[:600]}
                         kind, what = DIRECT_BY_SUITE[(suite, word)]
